@@ -399,6 +399,9 @@ func stepsFor(mode string, names int) [][]step {
 	return out
 }
 
+// siteMatrix: site kind x mutation group -> cases / effective / leaked (site family, sites.go)
+var siteMatrix = map[string]*cell{}
+
 type cell struct {
 	Cases, Effective, Leaked int64
 }
@@ -669,8 +672,12 @@ func main() {
 		probeMain(os.Args[2:])
 		return
 	}
+	if len(os.Args) > 1 && os.Args[1] == "show" {
+		showMain(os.Args[2:])
+		return
+	}
 	if pool.IsWorker() {
-		pool.Serve(map[string]pool.Handler{"matrix": matrixWorker, "lib": libWorker})
+		pool.Serve(map[string]pool.Handler{"matrix": matrixWorker, "lib": libWorker, "site": siteWorker})
 	}
 	c := ev.New("C06")
 	defer runner.Cleanup()
@@ -685,7 +692,12 @@ func main() {
 	}
 	// waves: each wave is a complete sub-space; a wave is only started while the budget lasts
 	waves := map[string][]pool.Shard{}
-	order := []string{"1x1", "lib", "2x1", "1x2", "2x2r"}
+	order := []string{"1x1", "lib", "site", "2x1", "1x2", "2x2r"}
+	for _, k := range siteKinds() {
+		for _, st := range siteStores() {
+			waves["site"] = append(waves["site"], pool.Shard{Kind: "site", Arg: siteShard{Kind: k.name, Store: st.name, Rot: rot, Quick: c.Quick()}})
+		}
+	}
 	for _, f := range libFns() {
 		waves["lib"] = append(waves["lib"], pool.Shard{Kind: "lib", Arg: libShard{Fn: f.Name}})
 	}
@@ -705,7 +717,7 @@ func main() {
 		}
 		for _, r1 := range routes() {
 			for _, r2 := range routes() {
-				if !r2.general || (r1.name == "param" && r2.name == "param") {
+				if !r2.general || (r1.name == "param" && r2.name == "param") || (c.Quick() && r2.late) {
 					continue
 				}
 				add(s.name, []string{r1.name, r2.name}, "2x1")
@@ -770,6 +782,29 @@ func main() {
 		cs[k] = fmt.Sprintf("effective_writes=%d shown_through=%d", v[0], v[1])
 		through += v[1]
 	}
+	srows := map[string]string{}
+	for k, v := range siteMatrix {
+		srows[k] = fmt.Sprintf("cases=%d effective=%d leaked=%d", v.Cases, v.Effective, v.Leaked)
+		if v.Leaked > 0 {
+			c.Outcome("leak " + k)
+		} else {
+			c.Outcome("independent " + k)
+		}
+	}
+	for _, k := range siteKinds() {
+		var eff int64
+		for ck, v := range siteMatrix {
+			if strings.HasPrefix(ck, "site."+k.name+"|") {
+				eff += v.Effective
+			}
+		}
+		if eff == 0 && strings.Contains(" "+strings.Join(done, " ")+" ", " site ") {
+			c.HarnessError("vacuous: site kind %s has no evaluable case in which the written holder changed", k.name)
+		}
+	}
+	c.Set("site_matrix_kind_x_group", srows)
+	c.Set("site_kinds", len(siteKinds()))
+	c.Set("site_stores", len(siteStores()))
 	c.Set("matrix_route_x_class", mrows)
 	c.Set("mutation_guard", ms)
 	c.Set("model_divergence_samples", diverge)
@@ -784,7 +819,7 @@ func main() {
 	c.Set("mutations", len(mutations()))
 	c.Set("library_functions", len(libFns()))
 	c.Set("route_chains", chains)
-	c.Assume("closure capture is excluded (origami closures share the defining frame by design)")
+	c.Assume("closure capture: by-value `use ($v)` and arrow-function auto-capture bind through the same copy-on-assignment mechanism as `$b = $a` on this tree (node/lambda.go) and are enumerated as routes; `use (&$v)` is an explicit reference and is not")
 	c.Assume("snapshots are json_encode + serialize of each live name; a leak that neither encoder can show is not seen")
 	c.Assume("mutations whose own effect differs from PHP (mutation_guard.model_differs) are still checked for leaks; their semantics belong to other properties")
 	c.Assume("reference controls are sensitivity controls: a missing write-through of `&` is reported in coverage.controls, not as a violation (the statement does not demand it); object handles are asserted")
@@ -806,7 +841,7 @@ func main() {
 	if unevalTotal*5 > total {
 		c.HarnessError("more than 20%% of the cases could not be evaluated (%d of %d)", unevalTotal, total)
 	}
-	c.Finish(total-unevalTotal, runs, total-unevalTotal, fmt.Sprintf("complete matrix shape(%d) x route(%d) x mutation(%d) x mutated side, + %d reference/handle control routes, + object table, + library family (array functions x argument-shape tuples: call must not change its arguments, result and arguments independent), + %d two-route chains (thorough: + two-mutation sequences); oracle: snapshot of every non-mutated name identical before/after inside the same run", len(shapes()), len(routes()), len(mutations()), len(controls()), chains))
+	c.Finish(total-unevalTotal, runs, total-unevalTotal, fmt.Sprintf("complete matrix shape(%d) x route(%d) x mutation(%d) x mutated side, + %d reference/handle control routes, + object table, + library family (array functions x argument-shape tuples: call must not change its arguments, result and arguments independent), + site family (%d array-producing site kinds x shape x loop|call repetition x %d stores x mutation: repeated evaluations of one site are independent), + %d two-route chains (thorough: + two-mutation sequences); oracle: snapshot of every non-mutated name identical before/after inside the same run", len(shapes()), len(routes()), len(mutations()), len(controls()), len(siteKinds()), len(siteStores()), chains))
 }
 
 func runWave(c *ev.Check, shards []pool.Shard, total, na, runs, copyDiff *int64, uneval map[string]int64, matrix map[string]*cell, mutStat map[string]*[4]int64, ctrl map[string]*[2]int64, diverge map[string]string, leakBy map[string]int64) {
@@ -821,6 +856,28 @@ func runWave(c *ev.Check, shards []pool.Shard, total, na, runs, copyDiff *int64,
 			c.Add("library_writes_judged", r.NA)
 			for k, n := range r.Uneval {
 				uneval[k] += n
+			}
+			for k, n := range r.Counts {
+				for i := int64(1); i < n; i++ {
+					c.Fail(k, "", 1<<30, nil, "")
+				}
+			}
+		case "sitecount":
+			*total += r.N
+			*na += r.NA
+			*runs += r.Runs
+			c.Add("site_cases", r.N)
+			for k, n := range r.Uneval {
+				uneval[k] += n
+			}
+			for k, v := range r.Matrix {
+				k = "site." + k
+				if siteMatrix[k] == nil {
+					siteMatrix[k] = &cell{}
+				}
+				siteMatrix[k].Cases += v.Cases
+				siteMatrix[k].Effective += v.Effective
+				siteMatrix[k].Leaked += v.Leaked
 			}
 			for k, n := range r.Counts {
 				for i := int64(1); i < n; i++ {
@@ -903,6 +960,21 @@ func replay(c *ev.Check) {
 		for _, f := range o.Findings {
 			fmt.Println(f.Key, "\n", f.Detail)
 			c.Fail(f.Key, "leak", 0, map[string]any{"kind": "lib", "case": lc}, f.Detail)
+		}
+		c.Finish(1, 1, 1, "replay")
+	}
+	if cs.Kind == "site" {
+		var sc siteCase
+		json.Unmarshal(cs.Case, &sc)
+		o := judgeSite(sc)
+		fmt.Println(o.B.script)
+		if !o.Evaluable {
+			fmt.Println("not evaluable:", o.Reason)
+		}
+		fmt.Println(o.Detail)
+		if o.Holder || o.Fresh {
+			k, _ := siteKey(sc, o, &judgeCache{m: map[string]outcome{}})
+			c.Fail(k, "leak", 0, map[string]any{"kind": "site", "case": sc}, o.Detail)
 		}
 		c.Finish(1, 1, 1, "replay")
 	}
